@@ -279,43 +279,48 @@ def execute_book(job):
     import warnings
     from pmutt.io.excel import read_excel
     cases, io_mode = job if isinstance(job, tuple) else (job, 'abs')
+    rewrite = io_mode.endswith('+rewrite')        # second-use history: the workbook at this path is
+    io_mode = io_mode.split('+')[0]               # replaced by a different one and read again
+    h = len(cases) // 2
+    phases = [cases[:h], cases[h:]] if rewrite and h else [cases]
     d = tempfile.mkdtemp(prefix='c15_')
     out = []
     old = os.getcwd()
     try:
         os.mkdir(os.path.join(d, 'wb'))
         os.chdir(d)                                   # relative OUTCAR names are relative to the cwd
-        cases = [_materialise(c, d) for c in cases]
-        path = os.path.join(d, 'wb', 'book.xlsx')
-        names = _write_book(path, cases)
-        io = path if io_mode == 'abs' else os.path.join('wb', 'book.xlsx')
-        for k, (case, nm) in enumerate(zip(cases, names)):
-            kw = _call_kwargs(case, k, nm)
-            # a sheet with a formula column is read twice in this process: the second read must
-            # satisfy the specification like the first (nothing may survive from one call to the next)
-            reads = 2 if any(text(h).strip() == 'formula' for h in case['headers']) else 1
-            evs, mism, msg = [], None, ''
-            for attempt in range(reads):
-                raised, records = '', []
-                try:
-                    with warnings.catch_warnings(), contextlib.redirect_stdout(io_module.StringIO()):
-                        warnings.simplefilter('ignore')        # (the OUTCAR reader prints to stdout)
-                        recs = read_excel(io, **kw)
-                    records = [proj_record(r) for r in recs]
-                except Exception as ex:      # the library raised on a sheet of the quantifier
-                    raised, msg = type(ex).__name__, ('%s: %s' % (type(ex).__name__, ex))[:160]
-                evs.append({'ev': 'read', 'headers': case['headers'], 'rows': case['rows'],
-                            'opt': case['opt'], 'raised': raised, 'records': records})
-                if 'expected' in case and not raised and mism is None:
-                    exp = canon_expected(case['expected'])
-                    if records != exp:
-                        bad = [q for q in range(max(len(exp), len(records)))
-                               if q >= len(exp) or q >= len(records) or exp[q] != records[q]]
-                        q = bad[0]
-                        mism = {'read': attempt + 1, 'rows_differing': bad[:10],
-                                'expected': show_record(exp[q]) if q < len(exp) else None,
-                                'got': show_record(records[q]) if q < len(records) else None}
-            out.append((evs, mism, {'raised': msg, 'sheet': nm, 'kwargs': repr(kw)[:200], 'io': io_mode}))
+        for cases in phases:
+          cases = [_materialise(c, d) for c in cases]
+          path = os.path.join(d, 'wb', 'book.xlsx')
+          names = _write_book(path, cases)
+          io = path if io_mode == 'abs' else os.path.join('wb', 'book.xlsx')
+          for k, (case, nm) in enumerate(zip(cases, names)):
+              kw = _call_kwargs(case, k, nm)
+              # a sheet with a formula column is read twice in this process: the second read must
+              # satisfy the specification like the first (nothing may survive from one call to the next)
+              reads = 2 if any(text(h).strip() == 'formula' for h in case['headers']) else 1
+              evs, mism, msg = [], None, ''
+              for attempt in range(reads):
+                  raised, records = '', []
+                  try:
+                      with warnings.catch_warnings(), contextlib.redirect_stdout(io_module.StringIO()):
+                          warnings.simplefilter('ignore')        # (the OUTCAR reader prints to stdout)
+                          recs = read_excel(io, **kw)
+                      records = [proj_record(r) for r in recs]
+                  except Exception as ex:      # the library raised on a sheet of the quantifier
+                      raised, msg = type(ex).__name__, ('%s: %s' % (type(ex).__name__, ex))[:160]
+                  evs.append({'ev': 'read', 'headers': case['headers'], 'rows': case['rows'],
+                              'opt': case['opt'], 'raised': raised, 'records': records})
+                  if 'expected' in case and not raised and mism is None:
+                      exp = canon_expected(case['expected'])
+                      if records != exp:
+                          bad = [q for q in range(max(len(exp), len(records)))
+                                 if q >= len(exp) or q >= len(records) or exp[q] != records[q]]
+                          q = bad[0]
+                          mism = {'read': attempt + 1, 'rows_differing': bad[:10],
+                                  'expected': show_record(exp[q]) if q < len(exp) else None,
+                                  'got': show_record(records[q]) if q < len(records) else None}
+              out.append((evs, mism, {'raised': msg, 'sheet': nm, 'kwargs': repr(kw)[:200], 'io': io_mode}))
     finally:
         os.chdir(old)
         shutil.rmtree(d, ignore_errors=True)
@@ -432,7 +437,8 @@ def _cell(kind, rnd, f):
 def random_case(rnd, cid, big=False, **f):
     """A random sheet of the quantifier.  Keyword arguments force features (used by the boundary
     cases that every run contains): nrows, nvib, nlist, nrot, form, sheet, order, first_empty,
-    atoms, outcar, opt_nondefault, delim, types, unicode, dtype_str, explicit_defaults, unnamed."""
+    atoms, outcar, opt_nondefault, delim, types, unicode, dtype_str, explicit_defaults, unnamed,
+    padded_repeats."""
     P = lambda key, p: f[key] if key in f else rnd.random() < p
     delim = f.get('delim', '-' if rnd.random() < 0.06 else '.')
     cols = []        # (header text, kind)
@@ -511,6 +517,13 @@ def random_case(rnd, cid, big=False, **f):
     for key in MODELS:
         if rnd.random() < 0.2:
             models.append((key, key))
+    if P('padded_repeats', 0.2):             # differently padded repeats: pandas does not rename them
+        for g in [vib, rot] + [l for l in lists if l and l[0][0].count('.') == 1]:
+            idx = [q for q, (h, _) in enumerate(g) if h in ('vib_wavenumber', 'rot_temperature') or h.startswith('list.')]
+            pads = [(' ', ''), ('', ' '), ('\t', ''), ('', '  '), (' ', ' ')]
+            rnd.shuffle(pads)
+            for q, (a, b) in zip(rnd.sample(idx, min(len(idx), rnd.randint(1, 4))), pads):
+                g[q] = (a + g[q][0] + b, g[q][1])
     groups = [[c] for c in cols] + [vib, rot] + lists + dicts + nasa + [[m] for m in models]
     groups = [g for g in groups if g]
     if not groups:
@@ -533,7 +546,7 @@ def random_case(rnd, cid, big=False, **f):
         nfilled = rnd.randint(0, nv) if ragged else None
         seen_vib = 0
         for h, kind in flat:
-            if h == 'vib_wavenumber' and ragged:
+            if h.strip() == 'vib_wavenumber' and ragged:
                 seen_vib += 1
                 empty = seen_vib > nfilled
             else:
@@ -593,6 +606,7 @@ def boundary_cases(rnd):
         add(unnamed=True, nrows=3)
         add(explicit_defaults=True, nrows=2)
         add(nrot=12, nrows=2)
+        add(padded_repeats=True, nvib=rnd.choice([2, 5]), nlist=3, nrot=2, nrows=3)
     return out
 
 
@@ -699,7 +713,8 @@ REQUIRED_COUNTERS = (
      'options_nondefault_without_outcar', 'outcar_empty_file', 'outcar_relative_path', 'outcar_absolute_path',
      'order_natural', 'order_reversed', 'order_shuffled',
      'sheet_by_name', 'sheet_by_index', 'sheet_default_first', 'io_absolute_path', 'io_relative_path',
-     'read_twice']
+     'read_twice', 'padded_repeat_of_accumulating_header', 'padded_repeat_mixed_with_identical',
+     'same_path_rewritten']
     + ['form_' + f for f in sorted(FORMS)]
     + ['preset_' + p for p in PRESETS]
     + ['model_' + m for ms in MODELS.values() for m in ms] + ['model_EmptyMode', 'model_emptymode_other_case'])
@@ -796,6 +811,13 @@ def _exercise(ctx, case):
             seen.add('repeats_11_or_more')
         if hs.count('vib_wavenumber') >= 30:
             seen.add('vib_30_repeats')
+    st = [h.strip() for h in hs]
+    for t in set(st):
+        raws = [h for h, u in zip(hs, st) if u == t]
+        if len(set(raws)) > 1 and (t in ('vib_wavenumber', 'rot_temperature') or t.startswith('list.')):
+            seen.add('padded_repeat_of_accumulating_header')
+            if len(raws) > len(set(raws)):
+                seen.add('padded_repeat_mixed_with_identical')
     if any(all(x['t'] == 'e' for x in row) for row in rows):
         seen.add('entirely_empty_row')
     if len(rows) > 1 and all(x['t'] == 'e' for x in rows[0]):
@@ -940,8 +962,10 @@ def run(ctx):
     if cur:
         books.append(cur)
     t1 = time.time()
-    results = core.pmap(execute_book, [([c for _, c in b], 'abs' if n % 2 == 0 else 'rel')
+    results = core.pmap(execute_book, [([c for _, c in b], ('abs' if n % 2 == 0 else 'rel')
+                                        + ('+rewrite' if n % 3 == 0 and len(b) > 1 else ''))
                                        for n, b in enumerate(books)], chunksize=1)
+    ctx.count('exercised_same_path_rewritten', sum(1 for n, b in enumerate(books) if n % 3 == 0 and len(b) > 1))
     ctx.count('exercised_io_absolute_path', (len(books) + 1) // 2)
     ctx.count('exercised_io_relative_path', len(books) // 2)
     phase['replay_into_read_excel'] = round(time.time() - t1, 1)
